@@ -5,6 +5,7 @@ CONSTANTS
   MaxBlocks = 1
   Layouts = {"plain"}
   MaxUnwind = 1
+  Features = {}
   Defect = "none"
   MaxReload = 0
 CONSTRAINT Bounded
